@@ -146,7 +146,10 @@ class Inst:
     """one harness instance = one goto program = one family of solver queries."""
     def __init__(self, id, props, harness, entry, tus=(), defs=(), stubs=(), unwind=3, unwindset=(),
                  backends=("z3", "sat"), timeout=120, tier="quick", objbits=12, mem_gb=16,
-                 bounds="", inputs="", c_sources=(), nounwind_assert=False, extra_cbmc=(), ub=True, desc="", model_unwind=17, short_strings=True, truncate_long=False):
+                 bounds="", inputs="", c_sources=(), nounwind_assert=False, extra_cbmc=(), ub=True, desc="", model_unwind=17, short_strings=True, truncate_long=False, quick_also=None):
+        # quick tier of property P = quick instances whose primary property (props[0]) is P, or that list P in quick_also;
+        # the thorough tier of P runs every instance that carries P
+        self.quick_also = list(quick_also) if quick_also is not None else None
         self.truncate_long = truncate_long
         self.model_unwind = model_unwind
         self.rest_backends = ["sat"]
